@@ -23,11 +23,13 @@ pub struct Cfg {
     pub sched: String,
     pub budget: u64,
     pub drain: bool,
+    /// smoke runs: `with_ring_buffer::<_, N>(N * capmul)` — the capacity argument (the const N is what sizes the ring)
+    pub capmul: usize,
 }
 
 pub fn parse_cfg(a: &[&str]) -> Cfg {
     let mut c = Cfg { n: 4, multi: false, block: false, stages: vec![vec![false]], writers: vec![vec![1]],
-                      sched: "random:1:128".into(), budget: 200_000, drain: true };
+                      sched: "random:1:128".into(), budget: 200_000, drain: true, capmul: 1 };
     for t in a {
         if let Some((k, v)) = t.split_once('=') {
             match k {
@@ -44,6 +46,7 @@ pub fn parse_cfg(a: &[&str]) -> Cfg {
                 "sched" => c.sched = v.to_string(),
                 "budget" => c.budget = v.parse().unwrap(),
                 "drain" => c.drain = v == "1",
+                "capmul" => c.capmul = v.parse().unwrap(),
                 _ => {}
             }
         }
@@ -90,6 +93,12 @@ pub fn parse_strategy(s: &str) -> Strategy {
                 run_len: 0,
             }
         }
+        // lazy:<tid+tid…>:<limit>
+        "lazy" => Strategy::Lazy {
+            lazy: parts.get(1).map(|l| l.split('+').map(|x| x.to_string()).collect()).unwrap_or_default(),
+            limit: parts.get(2).and_then(|x| x.parse().ok()).unwrap_or(12),
+            idle: Default::default(),
+        },
         _ => Strategy::First,
     }
 }
@@ -217,6 +226,8 @@ macro_rules! with_n {
             64 => $f::<64>($($arg),*),
             128 => $f::<128>($($arg),*),
             256 => $f::<256>($($arg),*),
+            512 => $f::<512>($($arg),*),
+            1024 => $f::<1024>($($arg),*),
             _ => panic!("unsupported ring size"),
         }
     };
@@ -534,7 +545,7 @@ fn smoke_pipeline<const N: usize>(cfg: &Cfg, log: &Arc<std::sync::Mutex<Vec<Stri
             log.lock().unwrap().push("M joined => -".into());
         }};
     }
-    let b0 = RustDisruptorBuilder::with_ring_buffer::<u64, N>(N);
+    let b0 = RustDisruptorBuilder::with_ring_buffer::<u64, N>(N * cfg.capmul);
     match (cfg.block, cfg.multi) {
         (false, false) => go!(b0.with_spin_wait(), with_single_producer, single),
         (true, false) => go!(b0.with_blocking_wait(), with_single_producer, single),
